@@ -250,12 +250,48 @@ def _solve_whole(model, cap_nodes=200_000, cap_solutions=4096):
         for g in range(len(groups) - 1, -1, -1):
             gmax_suffix[g] = gmax_suffix[g + 1] + max(c[v] for v in groups[g])
 
+        def can_be_one(v):
+            for r, k in rows_of_var[v]:
+                _, sense, rhs = rows[r]
+                lo = lhs[r] + k + free_min[r] - (k if k < 0 else 0)
+                hi = lhs[r] + k + free_max[r] - (k if k > 0 else 0)
+                if sense == 0:
+                    if not lo <= rhs <= hi:
+                        return False
+                elif sense < 0:
+                    if not lo <= rhs:
+                        return False
+                elif not hi >= rhs:
+                    return False
+            return True
+
+        dynamic = nv > 24
+
+        def optimistic(g):
+            """Best still attainable from the undecided groups: per group the largest coefficient among the
+            variables that can still be set to one given everything fixed so far."""
+            if not dynamic:
+                return gmax_suffix[g]
+            total = 0
+            for q in range(g, len(groups)):
+                best_c = None
+                for v in groups[q]:
+                    if (best_c is None or c[v] > best_c) and can_be_one(v):
+                        best_c = c[v]
+                if best_c is None:
+                    return None  # some group cannot be satisfied any more
+                total += best_c
+            return total
+
         def rec(g, total):
             tick()
-            if state["best"] is not None and total + gmax_suffix[g] < state["best"]:
-                return
             if g == len(groups):
                 record(total)
+                return
+            opt = optimistic(g)
+            if opt is None:
+                return
+            if state["best"] is not None and total + opt < state["best"]:
                 return
             grp = groups[g]
             for chosen in grp:
